@@ -66,7 +66,7 @@ MANIFEST = dict(
          "aborting (function, direction) pairs are open known findings (making the passes iterative is not a small "
          "fix). Also proved: get_as_cell (exactly 2k+2) and mark (at least 2k+1) through vectors nested k deep; equal? along the cdr "
          "direction uses at most 3 native frames for lists of ANY length (exactly 3 from length 2), also on improper and unequal flat lists. "
-         "OPEN: mark through closure/continuation chains, quote chains for get_as_cell/mark/equal?, the run loop adds no native frame. Drop/Clone are not "
+         "Quote chains (get_as_cell exactly 2j+2, equal? exactly 2j+1, mark at least j+1), equal? through vectors nested i deep (exactly 2i+1), and mark through chains of closures (at least 5k+1) and of continuations (at least 2k+1), on witness heaps laid out as the VM model builds them (instances computed by running the model), are proved unbounded. OPEN: the run loop adds no native frame per Scheme call (not modelled). Drop/Clone are not "
          "instrumented. Axioms: none declared; Print Assumptions reports the four standard-library real-number axioms "
          "for statements that mention datum/number definitions.",
     technique="Rocq/Coq proof (induction on the nesting of witness families) + depth-counter correspondence + child-process scenario grid")
